@@ -77,7 +77,7 @@ def replay(ctx, robj):
     case = robj["case"]
     pf = ctx.path("pairs.ndjson")
     with open(pf, "w") as f:
-        f.write(json.dumps({"a": case["a"], "b": case["b"], "eq": case.get("want", "either")}) + "\n")
+        f.write(json.dumps({"a": case["a"], "b": case["b"], "eq": case.get("want", "either"), "da": case.get("da") or []}) + "\n")
     drv = gobuild.build(ctx, "encval")
     rc, out, err = gobuild.run_driver(ctx, drv, ["eq", pf], timeout=600)
     for ln in out.splitlines():
